@@ -70,9 +70,11 @@ def check_case(prog, env, pid, want_schedules=True, forms=None):
             for kind, msg in monitors.c06(r):
                 viols.append((kind, msg, sd))
         elif pid == 'C13':
-            for kind, msg in monitors.c13(r, env['file']):
+            for kind, msg in monitors.c13(r, env['file']) + monitors.stored_equals_supplied(r):
                 viols.append((kind, msg, sd))
         if pid == 'C05':
+            for kind, msg in monitors.stored_equals_supplied(r):
+                viols.append((kind, msg, sd))
             k = tuple(sorted(r.final_inputs.items()))
             groups.setdefault(k, []).append((r, sd))
     if pid == 'C05':
